@@ -2,7 +2,9 @@
    ONLY statements, each closed by `exact <lemma>`, non-vacuity Examples, Print Assumptions.
 
    Worker level: Model/Wrk.v (ServerWorker::poll; the stop handler at the top of poll, the
-   Shutdown state with its 1 s timer, `Counter::total()`).  Theorems are for ALL states `s`
+   Shutdown state with its 1 s timer, `WorkerCounter::total()`), modelling /repo AFTER the two
+   repairs this property led to (known_findings.txt: D6 total() counts live guards, D7 a worker
+   whose connection channel closed waits for its stop command).  Theorems are for ALL states `s`
    (hence for all reachable ones, `Inv` holds on every reachable state: WrkFacts.reachable_inv)
    or for ALL configurations and op histories.
    Server level: Model/SrvStop.v (command loop, Stop handler, join_all, signal mapping), for
@@ -23,15 +25,16 @@ From AN Require Import Model.Wrk Proofs.WrkFacts Model.SrvStop Proofs.SrvStopFac
    progress; everything still queued is dropped with the future (released, never called) and
    every other pending stop loses its sender (its future resolves) — see C06_dropped. *)
 Theorem C06_forced : forall c s sid rest,
-  sq s = (false, sid) :: rest -> counter s <> 0%Z -> counter s <> 1%Z ->
+  sq s = (false, sid) :: rest -> inprog s <> [] ->
   poll c s = (set_ws (set_svcs (set_sq s rest) (shutdown_svcs true (svcs s))) WDone,
               StopAck sid false :: Done
               :: drop_obs (set_svcs (set_sq s rest) (shutdown_svcs true (svcs s)))).
 Proof. exact stop_forced. Qed.
 
-(* C06_idle: with nothing in flight any stop is acknowledged `true` at once. *)
+(* C06_idle: with nothing in progress any stop is acknowledged `true` at once (connections
+   still queued are dropped with the future: released, C06_dropped). *)
 Theorem C06_idle : forall c s g sid rest,
-  sq s = (g, sid) :: rest -> counter s = 1%Z ->
+  sq s = (g, sid) :: rest -> inprog s = [] ->
   poll c s = (set_ws (set_sq s rest) WDone, StopAck sid true :: Done :: drop_obs (set_sq s rest)).
 Proof. exact stop_idle. Qed.
 
@@ -45,7 +48,7 @@ Proof. exact drop_obs_spec. Qed.
    that picks it up; the timer starts (deadline now + 1 s, start_from = now); the queue is
    drained: released, not called. *)
 Theorem C06_graceful_enter : forall c s sid rest,
-  sq s = (true, sid) :: rest -> counter s <> 0%Z -> counter s <> 1%Z ->
+  sq s = (true, sid) :: rest -> inprog s <> [] ->
   exists o cnt,
     drain c (cq s) (counter s) = (cnt, o) /\
     poll c s = (set_counter (set_cq (set_ws (set_svcs (set_sq s rest) (shutdown_svcs false (svcs s)))
@@ -64,8 +67,7 @@ Proof. exact shutdown_before_tick. Qed.
 
 (* ... at a tick: idle => ack true and Done; *)
 Theorem C06_graceful_tick_idle : forall c s dl start sid,
-  ws s = WShutdown dl start sid -> sq s = [] -> (dl <= now s)%Z ->
-  (counter s - Z.of_nat (length (cq s)) = 1)%Z ->
+  ws s = WShutdown dl start sid -> sq s = [] -> (dl <= now s)%Z -> inprog s = [] ->
   exists o, In (StopAck sid true) o /\ In Done o /\ calls_of o = []
     /\ (forall x, In x (cq s) -> In (Released (snd x)) o)
     /\ ws (fst (poll c s)) = WDone /\ snd (poll c s) = o.
@@ -74,7 +76,7 @@ Proof. exact shutdown_tick_idle. Qed.
 (* not idle and shutdown_timeout elapsed since start_from => ack false and Done; *)
 Theorem C06_graceful_tick_timeout : forall c s dl start sid,
   ws s = WShutdown dl start sid -> sq s = [] -> (dl <= now s)%Z ->
-  (1 < counter s - Z.of_nat (length (cq s)))%Z -> (c_timeout c <= now s - start)%Z ->
+  inprog s <> [] -> (c_timeout c <= now s - start)%Z ->
   exists o, In (StopAck sid false) o /\ In Done o /\ calls_of o = []
     /\ (forall x, In x (cq s) -> In (Released (snd x)) o)
     /\ ws (fst (poll c s)) = WDone /\ snd (poll c s) = o.
@@ -85,18 +87,17 @@ Proof. exact shutdown_tick_timeout. Qed.
    the worker; the deadline is always the last such poll's time + 1 s (variant: ticks). *)
 Theorem C06_graceful_tick_wait : forall c s dl start sid,
   ws s = WShutdown dl start sid -> sq s = [] -> (dl <= now s)%Z ->
-  (1 < counter s - Z.of_nat (length (cq s)))%Z -> (now s - start < c_timeout c)%Z ->
+  inprog s <> [] -> (now s - start < c_timeout c)%Z ->
   exists o cnt, drain c (cq s) (counter s) = (cnt, o) /\
     poll c s = (set_ws (set_counter (set_cq s []) cnt) (WShutdown (now s + 1000) start sid), o)
     /\ no_ack_done o /\ (forall x, In x (cq s) -> In (Released (snd x)) o).
 Proof. exact shutdown_tick_wait. Qed.
 
 (* C06_graceful, safety for every poll of every reachable state: an acknowledgement `true`
-   means nothing is in progress (outside the send/inc gap: exactly nothing); *)
+   means that NO connection is in progress (exactly: also inside the accept side's send/inc gap); *)
 Theorem C06_ack_true_means_idle : forall c ops sid,
   let s := exec c (init c) ops in finished s = false ->
-  In (StopAck sid true) (snd (poll c s)) ->
-  (Z.of_nat (length (inprog s)) <= (if gap s then 1 else 0))%Z /\ (gap s = false -> inprog s = []).
+  In (StopAck sid true) (snd (poll c s)) -> inprog s = [].
 Proof. intros c ops sid s. exact (ack_true_means_idle c s sid (reachable_inv c ops)). Qed.
 
 (* an acknowledgement `false` has exactly two causes: a forced stop, or shutdown_timeout elapsed
@@ -108,12 +109,12 @@ Theorem C06_ack_false_cause : forall c ops sid,
   \/ (exists dl start, ws s = WShutdown dl start sid /\ (c_timeout c <= now s - start)%Z).
 Proof. intros c ops sid s. exact (ack_false_means_forced_or_timeout c s sid (reachable_inv c ops)). Qed.
 
-(* the worker future resolves only together with an acknowledgement, or because the accept side
-   dropped its handle (the accept thread is gone). *)
+(* the worker future resolves only together with an acknowledgement, or because BOTH the accept
+   side and the server side have dropped their handles (a server dropped without stop). *)
 Theorem C06_done_cause : forall c ops,
   let s := exec c (init c) ops in finished s = false ->
   In Done (snd (poll c s)) ->
-  (exists sid b, In (StopAck sid b) (snd (poll c s))) \/ cq_open s = false.
+  (exists sid b, In (StopAck sid b) (snd (poll c s))) \/ (cq_open s = false /\ sq_open s = false).
 Proof. intros c ops s. exact (done_means_ack_or_closed c s (reachable_inv c ops)). Qed.
 
 (* C06_drain: once the worker has left the serving states (a graceful stop was picked up) no
@@ -122,29 +123,18 @@ Theorem C06_drain : forall c ops ops2,
   let s := exec c (init c) ops in ~ live s -> calls_of (concat (run c s ops2)) = [].
 Proof. intros c ops ops2 s. exact (no_call_after_shutdown c ops2 s (reachable_inv c ops)). Qed.
 
-(* C06_total_wrap — recorded upstream wart, not a violation of the property text: `total()` is
-   `load - 1`; outside the accept side's send/inc gap it is the number of connections queued or
-   in progress, *)
-Theorem C06_total_outside_gap : forall c ops,
-  let s := exec c (init c) ops in finished s = false -> gap s = false ->
-  total c s = TVal (Z.of_nat (length (cq s)) + Z.of_nat (length (inprog s))).
-Proof. intros c ops s. exact (total_is_inflight c s (reachable_inv c ops)). Qed.
+(* C06_total_wrap — the upstream wart is gone: `total()` no longer reads the shared atomic
+   (`load - 1`, which under-counted and could underflow in the accept side's send/inc gap; see
+   the corpus scripts and known_findings.txt) but counts the live guards, so it is exactly the
+   number of connections in progress in every state, gap or not; and the value a guard drop sees
+   in `Counter::dec` is >= 1, so `fetch_sub(1) - 1` cannot underflow either. *)
+Theorem C06_total_exact : forall s, total s = Z.of_nat (length (inprog s)).
+Proof. exact total_exact. Qed.
 
-(* inside the gap the counter can be 0: a stop handled then panics the worker in builds with
-   overflow checks ... *)
-Theorem C06_total_wrap_checked : forall c s g sid rest,
-  sq s = (g, sid) :: rest -> counter s = 0%Z -> c_ovf c = true ->
-  poll c s = (set_ws (set_sq s rest) WPanicked, [Panic POverflow]).
-Proof. exact stop_in_gap_checked. Qed.
-
-(* ... and reads 2^64-1 in plain release builds: a forced stop answers `false` with nothing in
-   flight (a graceful one waits for the next tick, C06_graceful_enter does not apply). *)
-Theorem C06_total_wrap_release : forall c s sid rest,
-  sq s = (false, sid) :: rest -> counter s = 0%Z -> c_ovf c = false ->
-  poll c s = (set_ws (set_svcs (set_sq s rest) (shutdown_svcs true (svcs s))) WDone,
-              StopAck sid false :: Done
-              :: drop_obs (set_svcs (set_sq s rest) (shutdown_svcs true (svcs s)))).
-Proof. exact stop_in_gap_wrapping_forced. Qed.
+Theorem C06_dec_no_underflow : forall c ops cid,
+  let s := exec c (init c) ops in finished s = false ->
+  mem_nat cid (inprog s) = true -> (1 <= counter s)%Z.
+Proof. intros c ops cid s. exact (finish_pre_positive c s cid (reachable_inv c ops)). Qed.
 
 (* ========================================================================================= *)
 (* server level                                                                              *)
@@ -224,7 +214,7 @@ Proof. exact server_completes. Qed.
 (* graceful stop with one connection in progress, timeout 2 s: first tick not done, connection
    finishes at 1.5 s, second tick: ack true *)
 Example C06_example_graceful :
-  let c := mkCfg 3 2000 true [([], [])] in
+  let c := mkCfg 3 2000 [([], [])] in
   trace c [PushConn 0 0; AcceptInc; PollW; PushStop true; PollW; Advance 1000; PollW;
            Advance 500; Finish 0; Advance 500; PollW]
   = [ []; []; [PollReady 0 ROk; PollReady 0 ROk; Call 0 0; PollReady 0 ROk]; []; []; []; []; [];
@@ -233,7 +223,7 @@ Proof. vm_compute. reflexivity. Qed.
 
 (* the timeout is reached with the connection still held: ack false at the 2 s tick *)
 Example C06_example_timeout :
-  let c := mkCfg 3 2000 true [([], [])] in
+  let c := mkCfg 3 2000 [([], [])] in
   trace c [PushConn 0 0; AcceptInc; PollW; PushStop true; PollW; Advance 1000; PollW; Advance 999; PollW;
            Advance 1; PollW]
   = [ []; []; [PollReady 0 ROk; PollReady 0 ROk; Call 0 0; PollReady 0 ROk]; []; []; []; []; []; [];
@@ -243,7 +233,7 @@ Proof. vm_compute. reflexivity. Qed.
 (* forced with a connection in progress; a second (graceful) stop queued behind it loses its
    sender; a queued connection is released, never called *)
 Example C06_example_forced :
-  let c := mkCfg 3 5000 true [([], [])] in
+  let c := mkCfg 3 5000 [([], [])] in
   trace c [PushConn 0 0; AcceptInc; PollW; PushConn 0 1; AcceptInc; PushStop false; PushStop true; PollW]
   = [ []; []; [PollReady 0 ROk; PollReady 0 ROk; Call 0 0; PollReady 0 ROk]; []; []; []; [];
       [StopAck 0 false; Done; Released 1; StopLost 1] ].
@@ -251,30 +241,36 @@ Proof. vm_compute. reflexivity. Qed.
 
 (* the hypotheses of the tick theorems are reachable: a Shutdown state with the timer due *)
 Example C06_example_tick_state :
-  let c := mkCfg 3 2000 true [([], [])] in
+  let c := mkCfg 3 2000 [([], [])] in
   let s := exec c (init c) [PushConn 0 0; AcceptInc; PollW; PushStop true; PollW; Advance 1000] in
   ws s = WShutdown 1000 0 0 /\ sq s = [] /\ (1000 <= now s)%Z
-  /\ (1 < counter s - Z.of_nat (length (cq s)))%Z /\ (now s - 0 < c_timeout c)%Z.
+  /\ inprog s <> [] /\ (now s - 0 < c_timeout c)%Z.
 Proof. vm_compute. repeat split; auto; discriminate. Qed.
 
-(* C06_total_wrap is reachable: the worker picks up and finishes a connection before the accept
-   side has incremented; a stop handled in that window sees counter = 0 *)
+(* the send/inc gap (former D6): the worker has picked up a connection the accept side has not
+   yet counted (counter still 1); a graceful stop now WAITS for it *)
 Example C06_example_gap :
-  let c := mkCfg 3 5000 true [([], [])] in
-  let s := exec c (init c) [PushConn 0 0; PollW; Finish 0; PushStop true] in
-  counter s = 0%Z /\ gap s = true /\ sq s = [(true, 0)]
-  /\ snd (poll c s) = [Panic POverflow].
+  let c := mkCfg 3 5000 [([], [])] in
+  let s := exec c (init c) [PushConn 0 0; PollW; PushStop true] in
+  counter s = 1%Z /\ gap s = true /\ inprog s = [0]
+  /\ snd (poll c s) = [] /\ ws (fst (poll c s)) = WShutdown 1000 0 0.
 Proof. vm_compute. repeat split; auto. Qed.
 
-(* RECORDED WITNESS (reported to the orchestrator; see notes/worker.md): if the accept thread
-   exits — dropping its handles — before the worker has picked up the stop, the worker future
-   resolves through `None => return Poll::Ready(())` with a connection still in progress and no
-   acknowledgement at all (C06_done_cause's second disjunct). *)
-Example C06_accept_exit_first_witness :
-  let c := mkCfg 3 5000 true [([], [])] in
-  let ops := [PushConn 0 0; AcceptInc; PollW; CloseConn; PollW] in
-  last (trace c ops) [] = [PollReady 0 ROk; Done] /\ inprog (exec c (init c) ops) = [0].
-Proof. vm_compute. split; reflexivity. Qed.
+(* the accept thread exits before the worker saw its stop (former D7): the worker does not
+   resolve; the stop that follows is handled as a graceful stop should be *)
+Example C06_example_accept_exit_first :
+  let c := mkCfg 3 5000 [([], [])] in
+  trace c [PushConn 0 0; AcceptInc; PollW; CloseConn; PollW; PushStop true; PollW; Finish 0; Advance 1000; PollW]
+  = [ []; []; [PollReady 0 ROk; PollReady 0 ROk; Call 0 0; PollReady 0 ROk]; []; [PollReady 0 ROk];
+      []; []; [Released 0]; []; [StopAck 0 true; Done] ].
+Proof. vm_compute. reflexivity. Qed.
+
+(* a server dropped without stop: both channels closed, the worker ends *)
+Example C06_example_server_dropped :
+  let c := mkCfg 3 5000 [([], [])] in
+  trace c [PollW; CloseStop; PollW; CloseConn; PollW]
+  = [ [PollReady 0 ROk; PollReady 0 ROk]; []; [PollReady 0 ROk]; []; [PollReady 0 ROk; Done] ].
+Proof. vm_compute. reflexivity. Qed.
 
 (* server level: graceful stop of two workers, a second stop queued behind; the second worker
    answers late; everything resolves in the order of C06_server_order *)
@@ -307,9 +303,8 @@ Print Assumptions C06_ack_true_means_idle.
 Print Assumptions C06_ack_false_cause.
 Print Assumptions C06_done_cause.
 Print Assumptions C06_drain.
-Print Assumptions C06_total_outside_gap.
-Print Assumptions C06_total_wrap_checked.
-Print Assumptions C06_total_wrap_release.
+Print Assumptions C06_total_exact.
+Print Assumptions C06_dec_no_underflow.
 Print Assumptions C06_signal_map.
 Print Assumptions C06_join_all_results.
 Print Assumptions C06_join_all_polls.
